@@ -185,7 +185,7 @@ def generate(seed: int, tier: str = "quick") -> dict:
                 # than is held: whichever token the pool calls token0, a refused deposit must leave both wallets alone
                 where = "in"
                 lo, hi = rng_ticks()
-                near = rp.choice(["1", "0.999996", "1.000004", "0.99998"])  # never 0.99999: exactly on the snap threshold, a genuine discontinuity
+                near = rp.choice(["1", "0.999996", "1.000004"])  # inside the snap zone only: 0.99999 is the threshold itself (a discontinuity) and 0.99998 leaves a remainder of 2e-5 of the balance, whose relative error is the deposit's rounding error times 5e4
                 xb, xq = (near, "3") if rp.random() < 0.5 else ("3", near)
                 o = {"op": "uni.add_by_tick", "a": {"lo": lo, "hi": hi, "base": {"f": f"wallet:{B}", "x": xb}, "quote": {"f": f"wallet:{Q}", "x": xq}, "where": where}}
                 n_created += 1
